@@ -552,6 +552,7 @@ class Extract:
         self.letty = []
         self.maps = []
         self.maps_each = []
+        self.lift_anchor = None
         self.contract = []
         self.loops = {}
         self.loop_iter = {}
@@ -690,6 +691,10 @@ def parse_template(path):
             elif key.startswith('lift-closure '):
                 m = re.match(r'lift-closure (\d+) as (.*)$', d)
                 cur.lift = (int(m.group(1)), m.group(2))
+            elif key == 'lift-anchor':
+                # the lifted closure is the one whose argument position follows this literal (e.g. the match arm it belongs to);
+                # overrides the ordinal of lift-closure when closures are inserted or removed before it
+                cur.lift_anchor = val
             elif key.startswith('lift-async '):
                 m = re.match(r'lift-async (\d+) as (.*)$', d)
                 cur.lift_async = (int(m.group(1)), m.group(2))
@@ -799,6 +804,22 @@ def render_extract(ex, vac=False, strip_proof=False):
         kidx, sig = ex.lift
         toks = tokenize(body)
         cl = find_closures(toks)
+        anchor = getattr(ex, 'lift_anchor', None)
+        if anchor:
+            # first closure that starts after the (unique) anchor literal
+            src_ = join(toks)
+            if src_.count(anchor) != 1:
+                raise Undecided('lift-anchor: literal %r occurs %d times' % (anchor, src_.count(anchor)))
+            apos = src_.index(anchor)
+            off = 0
+            starts = []
+            for t_ in toks:
+                starts.append(off)
+                off += len(t_[1])
+            cands = [i_ for i_, (b0_, b1_) in enumerate(cl) if starts[b0_] >= apos]
+            if not cands:
+                raise Undecided('lift-anchor: no closure after %r' % anchor)
+            kidx = cands[0] + 1
         if kidx < 1 or kidx > len(cl):
             raise Undecided('lift-closure: closure %d not found (%d closures)' % (kidx, len(cl)))
         b0, b1 = cl[kidx - 1]
